@@ -76,7 +76,7 @@ def rule_cfgmod(ctx, prop: str) -> RuleResult:
     n_thread = 0
     for f in am.funcs.values():
         for n in f.body_nodes():
-            if isinstance(n, ast.Assign) and isinstance(n.value, ast.Call) and last_name(n.value) in three_valued:
+            if isinstance(n, ast.Assign) and isinstance(n.value, ast.Call) and last_name(n.value) in {f.name for f, _ in touching}:
                 n_thread += 1
                 res.instances += 1
                 res.nontrivial += 1
